@@ -194,7 +194,10 @@ def c20_sweep(seed=0, n=120):
     gens["string"] = lambda r: r.choice(["", "a", "a,b", 'q"uo"te', "line\nbreak", "cr\r\nlf", "tab\tsemi;colon", "é€😀", "\udcff\udc80", " lead", "x" * 50, "=1+1", "'single'"])
     gens["datetime"] = lambda r: r.choice([datetime.datetime(1, 1, 1, 3, tzinfo=datetime.timezone(datetime.timedelta(hours=5))), datetime.datetime(9999, 12, 31, 22, tzinfo=datetime.timezone(datetime.timedelta(hours=-5))), GEN, datetime.datetime(1969, 7, 20, 20, 17, tzinfo=UTC)])
     gens["filesize"] = lambda r: r.choice([0, 1, 1023, 1024, 10**6, 2**60, 2**70, r.randrange(2**64)])
-    cases = 0
+    cases = 1
+    r0 = c20_total("string", "'\\udcff\\udc80'")
+    if r0.get("violates"):
+        return {"violates": True, "detail": f"a string holding undecodable bytes: {r0['detail']}", "witness": {"undecodable": True}, "cases": cases}
     saved = F.DISPLAY_TZINFO
     try:
         for i in range(n):
